@@ -188,6 +188,12 @@ class Controller(object):
             return self.send_error(mid, cid, msg, error_, cast=cast,
                                    errno=errors.UNKNOWN_COMMAND)
 
+        if not isinstance(properties, dict):
+            # refuse it before the command runs, not after it has run
+            return self.send_error(mid, cid, msg,
+                                   "properties must be a mapping", cast=cast,
+                                   errno=errors.MESSAGE_ERROR)
+
         try:
             cmd.validate(properties)
             resp = cmd.execute(self.arbiter, properties)
